@@ -74,6 +74,9 @@ def ev(v, val, hooks=None):
                 raise Raised('TypeError')
         if op == 'not':
             return not ev(a[0], val, hooks)
+        if op == 'regex' and isinstance(a[0], (str, bytes)):
+            import re
+            return re.compile(a[0], a[1])
         if op == 'and':
             return all(ev(x, val, hooks) for x in a)
         if op == 'or':
